@@ -382,3 +382,299 @@ Proof.
   cbv zeta. split; [reflexivity|]. split; [eexists; split; [left; reflexivity | reflexivity]|].
   intro SK. destruct (SK ("a"%string, None, [2]) ("a"%string, None, [2])) as [_ N]; cbn; auto.
 Qed.
+
+(** * 6. heritability calibration *)
+Lemma h2_calibration (v h : Q) : 0 < v -> 0 < h -> h <= 1 -> heritability v (h2_err h v) == h.
+Proof.
+  intros Hv Hh H1. unfold heritability, h2_err. field. split.
+  - intro E. assert (E' : v == 0) by (ring_simplify in E; lra). lra.
+  - lra.
+Qed.
+
+Lemma h2_err_nonneg (v h : Q) : 0 <= v -> 0 < h -> h <= 1 -> 0 <= h2_err h v.
+Proof.
+  intros Hv Hh H1. unfold h2_err. apply Qmult_le_0_compat; [|exact Hv].
+  unfold Qdiv. apply Qmult_le_0_compat; [lra|]. apply Qlt_le_weak, Qinv_lt_0_compat, Hh.
+Qed.
+
+Lemma nth_error_map2 {A B C} (f : A -> B -> C) : forall (l1 : list A) (l2 : list B) (i : nat) (a : A) (b : B),
+  nth_error l1 i = Some a -> nth_error l2 i = Some b -> nth_error (map2 f l1 l2) i = Some (f a b).
+Proof.
+  induction l1 as [|x l1 IH]; intros [|y l2] [|i] a b H1 H2; cbn in *; try discriminate.
+  - now inversion H1; inversion H2.
+  - now apply IH.
+Qed.
+
+Lemma set_h2_calibrated (t : nat) (h : h2arg) (gebv : list (list Q)) (ve : list Q) :
+  set_h2 t h gebv = Some ve ->
+  forall j hj vj, nth_error (h2_vec t h) j = Some hj -> nth_error (var_cols t gebv) j = Some vj ->
+    exists e, nth_error ve j = Some e /\ 0 <= e /\ (0 < vj -> 0 < hj -> hj <= 1 -> heritability vj e == hj).
+Proof.
+  unfold set_h2. destruct (forallb _ _) eqn:F; [|discriminate]. intros E; inversion E; subst ve; clear E.
+  intros j hj vj Hh Hv. exists (h2_err hj vj). split; [now apply nth_error_map2|]. split.
+  - rewrite forallb_forall in F. apply Qle_bool_iff, F. eapply nth_error_In. apply (nth_error_map2 h2_err); eassumption.
+  - apply h2_calibration.
+Qed.
+
+(** population variance is non-negative, so valid targets are always accepted *)
+Lemma sumQ_nonneg (l : list Q) : Forall (fun x => 0 <= x) l -> 0 <= sumQ l.
+Proof. induction 1 as [|x l Hx _ IH]; cbn; [lra|]. fold (sumQ l). lra. Qed.
+
+Lemma var_pop_nonneg (c : list Q) : 0 <= var_pop c.
+Proof.
+  unfold var_pop. unfold Qdiv. apply Qmult_le_0_compat.
+  - apply sumQ_nonneg. rewrite Forall_forall. intros x Hx. apply in_map_iff in Hx as (y & <- & _).
+    set (d := y - _). destruct (Qlt_le_dec d 0); [setoid_replace (d * d) with ((-d) * (-d)) by ring; apply Qmult_le_0_compat; lra | apply Qmult_le_0_compat; assumption].
+  - destruct c as [|x c]; [cbn; lra|]. apply Qlt_le_weak, Qinv_lt_0_compat. unfold Qlt; cbn. lia.
+Qed.
+
+Lemma set_h2_accepts (t : nat) (h : h2arg) (gebv : list (list Q)) :
+  Forall (fun x => 0 < x /\ x <= 1) (h2_vec t h) -> exists ve, set_h2 t h gebv = Some ve.
+Proof.
+  intros H. unfold set_h2. destruct (forallb _ _) eqn:F; [eexists; reflexivity|]. exfalso.
+  assert (G : forallb (Qle_bool 0) (map2 h2_err (h2_vec t h) (var_cols t gebv)) = true); [|congruence].
+  clear F. unfold var_cols. generalize (cols 0 t gebv). induction H as [|x l [H0 H1] _ IH]; intros [|c cs]; cbn; try reflexivity.
+  rewrite IH, andb_true_r. apply Qle_bool_iff, h2_err_nonneg; [apply var_pop_nonneg | assumption | assumption].
+Qed.
+
+(** * 7. the simulated trial *)
+Definition cell_is (e r : Z) (rec : prow) : bool := Z.eqb (p_env rec) e && Z.eqb (p_rep rec) r.
+
+Lemma filter_all {A} (f : A -> bool) (l : list A) : Forall (fun x => f x = true) l -> filter f l = l.
+Proof. induction 1 as [|x l Hx _ IH]; cbn; [reflexivity|]. now rewrite Hx, IH. Qed.
+Lemma filter_none {A} (f : A -> bool) (l : list A) : Forall (fun x => f x = false) l -> filter f l = [].
+Proof. induction 1 as [|x l Hx _ IH]; cbn; [reflexivity|]. now rewrite Hx. Qed.
+
+Lemma block_aux_cell : forall tx tg tv err e r env rep,
+  Forall (fun rec => p_env rec = e /\ p_rep rec = r) (block_aux tx tg tv e r env rep err).
+Proof. induction tx as [|x tx IH]; intros [|g tg] [|v tv] [|er err] e r env rep; cbn; constructor; [split; reflexivity | apply IH]. Qed.
+
+Lemma block_aux_length : forall tx tg tv err e r env rep, length tg = length tx -> length tv = length tx -> length err = length tx ->
+  length (block_aux tx tg tv e r env rep err) = length tx.
+Proof. induction tx as [|x tx IH]; intros [|g tg] [|v tv] [|er err] e r env rep H1 H2 H3; cbn in *; try discriminate; [reflexivity|]. f_equal. apply IH; lia. Qed.
+
+Lemma block_aux_nth : forall tx tg tv err e r env rep i x g v er,
+  nth_error tx i = Some x -> nth_error tg i = Some g -> nth_error tv i = Some v -> nth_error err i = Some er ->
+  nth_error (block_aux tx tg tv e r env rep err) i = Some (x, g, e, r, add_effects v env rep er).
+Proof.
+  induction tx as [|x0 tx IH]; intros [|g0 tg] [|v0 tv] [|er0 err] e r env rep [|i] x g v er H1 H2 H3 H4; cbn in *; try discriminate.
+  - inversion H1; inversion H2; inversion H3; inversion H4; reflexivity.
+  - now apply IH.
+Qed.
+
+Lemma block_aux_In : forall tx tg tv err e r env rep rec, In rec (block_aux tx tg tv e r env rep err) ->
+  exists i x g v er, nth_error tx i = Some x /\ nth_error tg i = Some g /\ nth_error tv i = Some v /\ nth_error err i = Some er /\
+                     rec = (x, g, e, r, add_effects v env rep er).
+Proof.
+  induction tx as [|x0 tx IH]; intros [|g0 tg] [|v0 tv] [|er0 err] e r env rep rec H; cbn in H; try contradiction.
+  destruct H as [<-|H].
+  - exists 0%nat, x0, g0, v0, er0. repeat split; reflexivity.
+  - apply IH in H as (i & x & g & v & er & H1 & H2 & H3 & H4 & E). exists (S i), x, g, v, er. repeat split; assumption.
+Qed.
+
+Section Trial.
+  Variable taxa : list str.
+  Variable grp : list (option Z).
+  Variable gvm : list (list Q).
+  Variables sde sdr sdx : list Q.
+  Notation blockM := (block taxa grp gvm).
+  Notation repsM := (rep_blocks taxa grp gvm sdr sdx).
+  Notation envsM := (env_blocks taxa grp gvm sde sdr sdx).
+
+  Lemma block_filter_same e r env rep err : filter (cell_is e r) (blockM e r env rep err) = blockM e r env rep err.
+  Proof.
+    apply filter_all. eapply Forall_impl; [|apply block_aux_cell]. intros rec [H1 H2]. unfold cell_is. now rewrite H1, H2, !Z.eqb_refl.
+  Qed.
+  Lemma block_filter_other e r e' r' env rep err : (e' <> e \/ r' <> r) -> filter (cell_is e r) (blockM e' r' env rep err) = [].
+  Proof.
+    intros H. apply filter_none. eapply Forall_impl; [|apply block_aux_cell]. intros rec [H1 H2]. unfold cell_is. rewrite H1, H2.
+    destruct (Z.eqb_spec e' e), (Z.eqb_spec r' r); cbn; try reflexivity. lia.
+  Qed.
+
+  Lemma reps_filter_miss : forall rs r0 e e' r env, (e' <> e \/ r < r0 \/ r >= r0 + Z.of_nat (length rs))%Z ->
+    filter (cell_is e r) (repsM e' r0 env rs) = [].
+  Proof.
+    induction rs as [|[zr ze] rs IH]; intros r0 e e' r env H; cbn [rep_blocks]; [reflexivity|].
+    rewrite filter_app, block_filter_other, IH; [reflexivity| |]; cbn [length] in H; lia.
+  Qed.
+
+  Lemma reps_filter_hit : forall rs r0 k zr ze e env, nth_error rs k = Some (zr, ze) ->
+    filter (cell_is e (r0 + Z.of_nat k)) (repsM e r0 env rs) = blockM e (r0 + Z.of_nat k)%Z env (scale sdr zr) (map (scale sdx) ze).
+  Proof.
+    induction rs as [|[zr0 ze0] rs IH]; intros r0 [|k] zr ze e env H; cbn in H; try discriminate; cbn [rep_blocks]; rewrite filter_app.
+    - inversion H; subst. replace (r0 + Z.of_nat 0)%Z with r0 by lia.
+      rewrite block_filter_same, reps_filter_miss by lia. apply app_nil_r.
+    - rewrite block_filter_other by lia. cbn [app].
+      replace (r0 + Z.of_nat (S k))%Z with (r0 + 1 + Z.of_nat k)%Z by lia. now apply IH.
+  Qed.
+
+  Lemma envs_filter_miss : forall ds e0 e r, (e < e0 \/ e >= e0 + Z.of_nat (length ds))%Z -> filter (cell_is e r) (envsM e0 ds) = [].
+  Proof.
+    induction ds as [|[zenv rs] ds IH]; intros e0 e r H; cbn [env_blocks]; [reflexivity|].
+    cbn [length] in H. rewrite filter_app, reps_filter_miss, IH; [reflexivity|lia|lia].
+  Qed.
+
+  (** the records of cell (env, rep) are exactly one block: one record per taxon, in taxon order *)
+  Lemma envs_filter_hit : forall ds e0 ei zenv rs ri zr ze, nth_error ds ei = Some (zenv, rs) -> nth_error rs ri = Some (zr, ze) ->
+    filter (cell_is (e0 + Z.of_nat ei) (1 + Z.of_nat ri)) (envsM e0 ds)
+    = blockM (e0 + Z.of_nat ei)%Z (1 + Z.of_nat ri)%Z (scale sde zenv) (scale sdr zr) (map (scale sdx) ze).
+  Proof.
+    induction ds as [|[zenv0 rs0] ds IH]; intros e0 [|ei] zenv rs ri zr ze H1 H2; cbn in H1; try discriminate; cbn [env_blocks]; rewrite filter_app.
+    - inversion H1; subst. replace (e0 + Z.of_nat 0)%Z with e0 by lia.
+      rewrite (reps_filter_hit rs 1%Z ri zr ze) by exact H2. rewrite envs_filter_miss by lia. apply app_nil_r.
+    - rewrite reps_filter_miss by lia. cbn [app].
+      replace (e0 + Z.of_nat (S ei))%Z with (e0 + 1 + Z.of_nat ei)%Z by lia. now apply (IH (e0 + 1)%Z ei zenv rs).
+  Qed.
+
+  (** a cell of an existing environment but with a replicate number outside 1..nrep has no record *)
+  Lemma envs_filter_norep : forall ds e0 ei zenv rs r, nth_error ds ei = Some (zenv, rs) -> (r < 1 \/ r > Z.of_nat (length rs))%Z ->
+    filter (cell_is (e0 + Z.of_nat ei) r) (envsM e0 ds) = [].
+  Proof.
+    induction ds as [|[zenv0 rs0] ds IH]; intros e0 [|ei] zenv rs r H1 H2; cbn in H1; try discriminate; cbn [env_blocks]; rewrite filter_app.
+    - inversion H1; subst. rewrite reps_filter_miss by lia. rewrite envs_filter_miss by lia. reflexivity.
+    - rewrite reps_filter_miss by lia. cbn [app].
+      replace (e0 + Z.of_nat (S ei))%Z with (e0 + 1 + Z.of_nat ei)%Z by lia. now apply (IH (e0 + 1)%Z ei zenv rs).
+  Qed.
+
+  Lemma reps_In : forall rs r0 e env rec, In rec (repsM e r0 env rs) ->
+    exists ri zr ze, nth_error rs ri = Some (zr, ze) /\ In rec (blockM e (r0 + Z.of_nat ri)%Z env (scale sdr zr) (map (scale sdx) ze)).
+  Proof.
+    induction rs as [|[zr0 ze0] rs IH]; intros r0 e env rec H; cbn [rep_blocks] in H; [destruct H|].
+    apply in_app_or in H as [H|H].
+    - exists 0%nat, zr0, ze0. split; [reflexivity|]. now replace (r0 + Z.of_nat 0)%Z with r0 by lia.
+    - apply IH in H as (ri & zr & ze & H1 & H2). exists (S ri), zr, ze. split; [exact H1|].
+      now replace (r0 + Z.of_nat (S ri))%Z with (r0 + 1 + Z.of_nat ri)%Z by lia.
+  Qed.
+
+  Lemma envs_In : forall ds e0 rec, In rec (envsM e0 ds) ->
+    exists ei zenv rs ri zr ze, nth_error ds ei = Some (zenv, rs) /\ nth_error rs ri = Some (zr, ze) /\
+      In rec (blockM (e0 + Z.of_nat ei)%Z (1 + Z.of_nat ri)%Z (scale sde zenv) (scale sdr zr) (map (scale sdx) ze)).
+  Proof.
+    induction ds as [|[zenv0 rs0] ds IH]; intros e0 rec H; cbn [env_blocks] in H; [destruct H|].
+    apply in_app_or in H as [H|H].
+    - apply reps_In in H as (ri & zr & ze & H1 & H2). exists 0%nat, zenv0, rs0, ri, zr, ze. repeat split; try assumption.
+      now replace (e0 + Z.of_nat 0)%Z with e0 by lia.
+    - apply IH in H as (ei & zenv & rs & ri & zr & ze & H1 & H2 & H3). exists (S ei), zenv, rs, ri, zr, ze. repeat split; try assumption.
+      now replace (e0 + Z.of_nat (S ei))%Z with (e0 + 1 + Z.of_nat ei)%Z by lia.
+  Qed.
+End Trial.
+
+(** ** shapes of the parsed draws *)
+Definition rep_ok (n t : nat) (rd : repdraw) : Prop :=
+  length (fst rd) = t /\ length (snd rd) = n /\ Forall (fun row => length row = t) (snd rd).
+Definition env_ok (n t : nat) (ed : envdraw) : Prop := length (fst ed) = t /\ Forall (rep_ok n t) (snd ed).
+
+Lemma chunk_ok (t : nat) : forall k l, length l = (k * t)%nat ->
+  length (chunk t k l) = k /\ Forall (fun row => length row = t) (chunk t k l).
+Proof.
+  induction k as [|k IH]; intros l H; cbn [chunk]; [split; [reflexivity | constructor]|].
+  destruct (IH (skipn t l)) as [L F]; [rewrite skipn_length; lia|]. split; [cbn; now rewrite L|].
+  constructor; [rewrite firstn_length; lia | exact F].
+Qed.
+
+Lemma parse_reps_ok (n t : nat) : forall k fl rs rem, parse_reps k n t fl = Some (rs, rem) ->
+  Forall (rep_ok n t) rs /\ length rs = k.
+Proof.
+  induction k as [|k IH]; intros fl rs rem H; cbn in H.
+  - inversion H; subst. split; [constructor | reflexivity].
+  - destruct fl as [|zr [|ze fl']]; try discriminate.
+    destruct (Nat.eqb_spec (length zr) t) as [E1|]; [|discriminate].
+    destruct (Nat.eqb_spec (length ze) (n * t)) as [E2|]; [|discriminate]. cbn in H.
+    destruct (parse_reps k n t fl') as [[rs' rem']|] eqn:P; [|discriminate]. inversion H; subst. clear H.
+    destruct (IH _ _ _ P) as [F L]. destruct (chunk_ok t n ze E2) as [CL CF].
+    split; [|cbn; now rewrite L]. constructor; [|exact F]. repeat split; assumption.
+Qed.
+
+Lemma parse_envs_ok (n t : nat) : forall nreps fl ds rem, parse_envs nreps n t fl = Some (ds, rem) ->
+  Forall (env_ok n t) ds /\ map (fun ed : envdraw => length (snd ed)) ds = nreps.
+Proof.
+  induction nreps as [|k ks IH]; intros fl ds rem H; cbn in H.
+  - inversion H; subst. split; [constructor | reflexivity].
+  - destruct fl as [|zenv fl']; [discriminate|].
+    destruct (Nat.eqb_spec (length zenv) t) as [E1|]; [|discriminate].
+    destruct (parse_reps k n t fl') as [[rs rem1]|] eqn:P; [|discriminate].
+    destruct (parse_envs ks n t rem1) as [[es rem2]|] eqn:P2; [|discriminate]. inversion H; subst. clear H.
+    destruct (parse_reps_ok n t _ _ _ _ P) as [F L]. destruct (IH _ _ _ P2) as [F2 L2].
+    split; [constructor; [split; assumption | exact F2] | cbn; now rewrite L, L2].
+Qed.
+
+(** ** zero noise *)
+Definition zero_vec (l : list Q) : Prop := Forall (fun s => s == 0) l.
+
+Lemma scale_zero : forall z sd, zero_vec sd -> zero_vec (scale sd z).
+Proof.
+  unfold scale. induction z as [|x z IH]; intros [|s sd] H; cbn; try constructor.
+  - inversion H; subst. rewrite H2. ring.
+  - inversion H; subst. now apply IH.
+Qed.
+Lemma scale_length (sd z : list Q) : length (scale sd z) = Nat.min (length z) (length sd).
+Proof. apply map2_length. Qed.
+
+Lemma add_zero : forall v w, length w = length v -> zero_vec w -> qlist_eq (map2 Qplus v w) v.
+Proof.
+  induction v as [|x v IH]; intros [|y w] L H; cbn in *; try discriminate; constructor.
+  - inversion H; subst. rewrite H2. ring.
+  - inversion H; subst. apply IH; [lia | assumption].
+Qed.
+
+Lemma add_effects_zero (v env rep er : list Q) : length env = length v -> length rep = length v -> length er = length v ->
+  zero_vec env -> zero_vec rep -> zero_vec er -> qlist_eq (add_effects v env rep er) v.
+Proof.
+  intros L1 L2 L3 Z1 Z2 Z3. unfold add_effects.
+  assert (La : length (map2 Qplus v env) = length v) by (rewrite map2_length; lia).
+  assert (Lb : length (map2 Qplus (map2 Qplus v env) rep) = length v) by (rewrite map2_length; lia).
+  eapply qlist_eq_trans; [apply add_zero; [lia | assumption]|].
+  eapply qlist_eq_trans; [apply add_zero; [lia | assumption]|].
+  apply add_zero; assumption.
+Qed.
+
+Lemma nth_error_map_inv {A B} (f : A -> B) (l : list A) (i : nat) (b : B) : nth_error (map f l) i = Some b -> exists a, nth_error l i = Some a /\ b = f a.
+Proof. rewrite nth_error_map. destruct (nth_error l i) as [a|]; cbn; intros H; inversion H. eauto. Qed.
+
+Section Trial2.
+  Variable taxa : list str.
+  Variable grp : list (option Z).
+  Variable gvm : list (list Q).
+  Variables sde sdr sdx : list Q.
+  Variables n t : nat.
+  Hypothesis Ltaxa : length taxa = n.
+  Hypothesis Lgrp : length grp = n.
+  Hypothesis Lgvm : length gvm = n.
+  Notation blockM := (block taxa grp gvm).
+  Notation repsM := (rep_blocks taxa grp gvm sdr sdx).
+  Notation envsM := (env_blocks taxa grp gvm sde sdr sdx).
+
+  Lemma block_length e r env rep err : length err = n -> length (blockM e r env rep err) = n.
+  Proof. intros L. unfold block. rewrite block_aux_length; lia. Qed.
+
+  Lemma reps_length : forall rs e r0 env, Forall (rep_ok n t) rs -> length (repsM e r0 env rs) = (n * length rs)%nat.
+  Proof.
+    induction rs as [|[zr ze] rs IH]; intros e r0 env F; cbn [rep_blocks length]; [lia|].
+    inversion F as [|? ? [_ [L _]] F']; subst. cbn in L. rewrite app_length, block_length, IH by (try assumption; now rewrite map_length). lia.
+  Qed.
+
+  Lemma envs_length : forall ds e0, Forall (env_ok n t) ds ->
+    length (envsM e0 ds) = (n * list_sum (map (fun ed : envdraw => length (snd ed)) ds))%nat.
+  Proof.
+    induction ds as [|[zenv rs] ds IH]; intros e0 F; cbn [env_blocks length map list_sum fold_right]; [lia|].
+    inversion F as [|? ? [_ Fr] F']; subst. cbn in Fr. rewrite app_length, reps_length, IH by assumption. cbn. lia.
+  Qed.
+
+  (** with all noise variances zero every record carries its taxon's labels and equals its true genotypic value *)
+  Lemma zero_noise_truth : forall ds e0 rec,
+    zero_vec sde -> zero_vec sdr -> zero_vec sdx -> length sde = t -> length sdr = t -> length sdx = t ->
+    Forall (fun v => length v = t) gvm -> Forall (env_ok n t) ds -> In rec (envsM e0 ds) ->
+    exists i v, nth_error taxa i = Some (p_taxa rec) /\ nth_error grp i = Some (p_grp rec) /\ nth_error gvm i = Some v /\ qlist_eq (p_val rec) v.
+  Proof.
+    intros ds e0 rec Z1 Z2 Z3 L1 L2 L3 Fg Fd H.
+    apply envs_In in H as (ei & zenv & rs & ri & zr & ze & H1 & H2 & H3).
+    apply block_aux_In in H3 as (i & x & g & v & er & Hx & Hg & Hv & He & ->).
+    apply nth_error_map_inv in He as (row & Hrow & ->).
+    rewrite Forall_forall in Fd. destruct (Fd _ (nth_error_In _ _ H1)) as [Lz Fr]. cbn in Lz, Fr.
+    rewrite Forall_forall in Fr. destruct (Fr _ (nth_error_In _ _ H2)) as [Lr [_ Frow]]. cbn in Lr, Frow.
+    rewrite Forall_forall in Frow. pose proof (Frow _ (nth_error_In _ _ Hrow)) as Lrow.
+    rewrite Forall_forall in Fg. pose proof (Fg _ (nth_error_In _ _ Hv)) as Lv.
+    exists i, v. cbn. repeat split; try assumption.
+    apply add_effects_zero; try (rewrite scale_length; lia); now apply scale_zero.
+  Qed.
+End Trial2.
